@@ -121,6 +121,9 @@ def cases(rng, tier):
         for rt in RTS:
             out.append({"t": "hist", "ops": [["register", [u], app, rt, None] for u in URIS] +
                         [["register", ["https://rp.example.com/cb", u], app, rt, None] for u in URIS[1:6]]})
+    # an application_type that is neither of the two values (differing in letter case, padded, another word): refused, whatever the URIs
+    for app in ("WEB", "Native", "NATIVE", "Web", "web ", "mobile"):
+        out.append({"t": "hist", "ops": [["register", [u], app, rt, None] for u in URIS[:8] for rt in (["code"], ["id_token"])]})
     for other in OK_OTHER:
         out.append({"t": "hist", "ops": [["register", ["https://rp.example.com/cb"], "web", ["code"], other], ["read", 0, 0]]})
     for _ in range(n):
@@ -221,7 +224,7 @@ def model_lines(c, obs):
     nxt = 0
     for op, st in zip(c["ops"], obs["steps"]):
         if op[0] == "register":
-            other_ok = op[4] is None or op[4] in OK_OTHER
+            other_ok = (op[4] is None or op[4] in OK_OTHER) and op[2] in (None, "web", "native")      # "" is no value at all? see impl: sent as given
             shapes = ";".join(f"{s[0]},{'1' if s[1] else '0'},{'1' if s[2] else '0'}" for s in map(shape, op[1]))
             lines.append("\t".join(["reg", "register", "1" if op[2] == "native" else "0", "1" if eff_rt(op[3]) in (None, ["code"]) else "0", "1" if other_ok else "0", shapes]))
         elif st["r"] != "skip":
@@ -293,6 +296,8 @@ def oracle(c, obs):
                         v.append({"cls": "inadmissible-uri-stored", "uri": u, "app": op[2], "rt": op[3]})
                 if op[4] is not None and op[4] not in OK_OTHER:
                     v.append({"cls": "inconsistent-metadata-stored", "what": list(op[4])[0]})
+                if op[2] not in (None, "web", "native", ""):
+                    v.append({"cls": "inconsistent-metadata-stored", "what": "application_type", "value": op[2]})
                 if st["cid"] in ids or st["secret"] in secrets or st["token"] in tokens:
                     v.append({"cls": "identifier-reused"})
                 ids.add(st["cid"]); secrets.add(st["secret"]); tokens.add(st["token"])
